@@ -281,6 +281,9 @@ func runC05(c *core.Ctx) {
 		}
 	}
 
+	c.Rule("C05.storecommits", putStoresText, 1)
+	checkPutStores(c, []struct{ rel, typ string }{{"linking/cid", "Memory"}})
+
 	c.Rule("C05.loadside", "every load function asks DecoderChooser about the requested link and HasherChooser about lnk.Prototype()", 4)
 	lsT := p.NamedType("linking", "LinkSystem")
 	if lsT != nil {
